@@ -53,7 +53,7 @@ CLAIMS = {
         "fault_enumeration",
         "crash-point / torn-write / short-write / failing-call enumeration over the recorded file-operation log (JSON, Python level) and over every mutating syscall via strace fault injection (SQLite, and JSON independently of the Python API used)",
         "crashx",
-        "For every history-rewriting operation of the JSON back end (background flush, exit flush, delete, erasedups, stale-lock unlock) from several pre-states, the file-system operation log is recorded and then every crash point, every torn-write length (quick: 1, n/2, n-1; thorough: all) and every single failing call is executed in a forked child; each history file must afterwards load and equal its complete old or new version; every write is additionally answered short (1 or n/2 bytes accepted, the code continues). The same JSON operations run in a child under strace with $TMPDIR on another file system, and every mutating syscall (write, rename*, unlink*, ftruncate, sendfile, copy_file_range) touching the history directory or $TMPDIR is killed-at and failed. For SQLite every mutating syscall on the database/journal is killed-at and failed (EIO) with strace injection and the table must be the complete old or new one with integrity_check ok.",
+        "For every history-rewriting operation of the JSON back end (background flush, exit flush, delete, erasedups, stale-lock unlock) from several pre-states, the file-system operation log is recorded and then every crash point, every torn-write length (quick: 1, n/2, n-1; thorough: all) and every single failing call is executed in a forked child; each history file must afterwards load and equal its complete old or new version; every write is additionally answered short (1 or n/2 bytes accepted, the code continues). The same JSON operations run in a child under strace with $TMPDIR on another file system, and every mutating syscall (write, rename*, unlink*, ftruncate, sendfile, copy_file_range) touching the history directory or $TMPDIR is killed-at and failed. A read by index followed by a flush is one of the operations (a failing read must not wedge later saves: a run that never returns is a violation). For SQLite every mutating syscall on the database/journal is killed-at and failed (EIO) with strace injection and the table must be the complete old or new one with integrity_check ok; in addition the k-th SQL statement of every operation is made to fail (statement-level faults, for every k) with the same all-or-nothing oracle.",
         "Process-kill model (no lost page cache); CPython's real io stack decides what reaches the kernel; time.time constant inside the module; strace/ptrace must be permitted (otherwise the SQLite part is skipped and says so).",
         "DESIGN.md §3 C13",
     ),
@@ -85,7 +85,7 @@ CLAIMS = {
         "exploration",
         "exhaustive enumeration of history-file collections x units x limit boundary values x force through the real GC on real files, against a reference selection",
         "gramx",
-        "Every collection of up to 4 (thorough 5) history files (command counts 0-3, lock flag, corrupt members, all equal-timestamp patterns, stale-lock boot positions) x unit {files, commands, s, b} x every boundary value of the limit x force is pushed through the real JsonHistory.run_gc on real files written with the real writer (virtual clock/boot time), plus every truncation of a genuine file, 1184 spellings of the limit and all SQLite tables of <= 5 rows x keep 0..6; survivors are compared with a 25-line reference derived from the statement. Plus every depth-<=3 (thorough 4) sequence of flush / loss or corruption of the open session's file / GC pass on a real open JsonHistory (the open session's file is never collected; its lock flag equals a brand-new session's - differential oracle), and the real GC thread driven through its wait_for_shell handshake with the limit changed while it waits (the limit in force when the GC acts decides).",
+        "Every collection of up to 4 (thorough 5) history files (command counts 0-3, lock flag, corrupt members, all equal-timestamp patterns, stale-lock boot positions) x unit {files, commands, s, b} x every boundary value of the limit x force is pushed through the real JsonHistory.run_gc on real files written with the real writer (virtual clock/boot time), plus every truncation of a genuine file, 1184 spellings of the limit and all SQLite tables of <= 5 rows x keep 0..6; survivors are compared with a 25-line reference derived from the statement. Plus every depth-<=3 (thorough 4) sequence of flush / loss or corruption of the open session's file / GC pass on a real open JsonHistory (the open session's file is never collected; its lock flag equals a brand-new session's - differential oracle), and the real GC thread driven through its wait_for_shell handshake with the limit changed while it waits (the limit in force when the GC acts decides). The live-session sequences include the `history flush` command through the real alias; the boot time comes from the real uptime code on a simulated machine (suspended or not); every pass's unlink order is recorded and must be oldest-first (interrupted-pass safety).",
         "Ties between equal timestamps, the exact-age boundary and the refusal-equality boundary are accepted either way; one flusher and one collector at a time, no concurrent directory changes; limits >= 0; virtual time frozen during a sequence; the session file is never emptied to 0 bytes.",
         "DESIGN.md §3 C14",
     ),
